@@ -7,7 +7,7 @@ Session driver (property C18): one request = one history on one `Modules` value.
           | "P"                                                           process
           | "R" <key-hex> <path-hex>                                      read  (ToEntry(ms.Modules[key]).Find(path))
       -> `outsideModel <why>` | the answers, one per op, joined by " || ":
-           load:    `accepted` | `rejected-build` | `rejected-add`
+           load:    `accepted` | `rejected-build` | `rejected-add` (duplicate) | `rejected-notmodule`
            process: the canonical dump of the outcome (Goyang.Model.Dump, records joined by " ; ")
            read:    `found <hex of Entry.Path()>` | `found ~` (nil) | `nomodule` | `unprocessed`
 
@@ -42,6 +42,7 @@ def showOut (s : Session) : Out → String
   | .accepted => "accepted"
   | .rejected .build => "rejected-build"
   | .rejected (.add _) => "rejected-add"
+  | .rejected (.notModule _) => "rejected-notmodule"
   | .processed o => dumpOutcome o
   | .found none => "found ~"
   | .found (some loc) =>
